@@ -615,6 +615,35 @@ def run_loky_seq(c):
     return {"steps": steps}
 
 
+def run_reuse_race(c):
+    """deterministic witness of finding F54: ONE unmanaged Parallel object, ONE array, repeated calls; the resource
+    tracker is made to lag (SIGSTOP) so that the unlink of the previous call's temporary file is still pending when the
+    next call looks for its file: the file is found by name and REUSED although the array was changed in place"""
+    import signal
+    from joblib import Parallel, delayed
+    from joblib.externals.loky.backend.resource_tracker import _resource_tracker
+    p = Parallel(n_jobs=2, max_nbytes=0, timeout=90)
+    x = np.zeros(c.get("n", 5000))
+    out = {"calls": []}
+    out["calls"].append({"want": 0.0, "got": [g["first"] for g in p(delayed(_summary)(x) for _ in range(4))]})
+    _resource_tracker.ensure_running()
+    pid = _resource_tracker._pid
+    os.kill(pid, signal.SIGSTOP)
+    try:
+        for value in (3.0, 7.0):
+            x[:] = value
+            try:
+                got = [g["first"] for g in p(delayed(_summary)(x) for _ in range(4))]
+                out["calls"].append({"want": value, "got": got})
+            except BaseException as e:  # noqa
+                out["calls"].append({"want": value, "raise": "%s: %s" % (type(e).__name__, str(e)[:120]),
+                                     "cause": repr(getattr(e, "__cause__", None))[-400:]})
+                break
+    finally:
+        os.kill(pid, signal.SIGCONT)
+    return out
+
+
 # ------------------------------------------------------------------ load() dispatch matrix
 class OtherReader:
     """a readable, seekable, peekable object that is neither a raw file nor a BytesIO"""
@@ -776,7 +805,8 @@ def run_loky_loop(c):
                 del got
                 gc.collect()
         except Exception as e:  # noqa
-            return {"rows": rows, "parallel_raise": "%s: %s" % (type(e).__name__, str(e)[:160])}
+            return {"rows": rows, "parallel_raise": "%s: %s" % (type(e).__name__, str(e)[:160]),
+                    "cause": repr(getattr(e, "__cause__", None))[-600:]}
         return {"rows": rows, "addresses_reused": 0}
     try:
         with Parallel(n_jobs=2, max_nbytes=c["max_nbytes"], backend=c.get("backend", "loky"), timeout=120) as parallel:
@@ -808,7 +838,7 @@ def main():
             c = json.loads(line)
             try:
                 r = {"array": run_array, "reduce": run_reduce, "loky": run_loky, "loadmatrix": run_loadmatrix,
-                     "route": run_route, "loky_loop": run_loky_loop, "loky_mode": run_loky_mode, "loky_seq": run_loky_seq}[c["mode"]](c)
+                     "route": run_route, "loky_loop": run_loky_loop, "loky_mode": run_loky_mode, "loky_seq": run_loky_seq, "reuse_race": run_reuse_race}[c["mode"]](c)
             except BaseException as e:  # harness-level failure is reported, not hidden
                 import traceback
                 r = {"harness_error": repr(e), "tb": traceback.format_exc()[-800:]}
